@@ -885,6 +885,11 @@ interp!(run_drnn, DrNN, DrNNVec, DrNNSlice, DrNNSliceMut, DrNNRef, DrNNRefMut, D
 interp!(run_nfirst, NFirst, NFirstVec, NFirstSlice, NFirstSliceMut, NFirstRef, NFirstRefMut, NFirstPtr, NFirstPtrMut, NFirstIter, NFirstIterMut, yes);
 interp!(run_nfirstf, NFirstF, NFirstFVec, NFirstFSlice, NFirstFSliceMut, NFirstFRef, NFirstFRefMut, NFirstFPtr, NFirstFPtrMut, NFirstFIter, NFirstFIterMut, yes);
 interp!(run_hyg, Hyg, HygVec, HygSlice, HygSliceMut, HygRef, HygRefMut, HygPtr, HygPtrMut, HygIter, HygIterMut, yes);
+interp!(run_hygd0, HygD0, HygD0Vec, HygD0Slice, HygD0SliceMut, HygD0Ref, HygD0RefMut, HygD0Ptr, HygD0PtrMut, HygD0Iter, HygD0IterMut, yes);
+interp!(run_hygd1, HygD1, HygD1Vec, HygD1Slice, HygD1SliceMut, HygD1Ref, HygD1RefMut, HygD1Ptr, HygD1PtrMut, HygD1Iter, HygD1IterMut, yes);
+interp!(run_hygd2, HygD2, HygD2Vec, HygD2Slice, HygD2SliceMut, HygD2Ref, HygD2RefMut, HygD2Ptr, HygD2PtrMut, HygD2Iter, HygD2IterMut, yes);
+interp!(run_hygd3, HygD3, HygD3Vec, HygD3Slice, HygD3SliceMut, HygD3Ref, HygD3RefMut, HygD3Ptr, HygD3PtrMut, HygD3Iter, HygD3IterMut, yes);
+interp!(run_hygd4, HygD4, HygD4Vec, HygD4Slice, HygD4SliceMut, HygD4Ref, HygD4RefMut, HygD4Ptr, HygD4PtrMut, HygD4Iter, HygD4IterMut, yes);
 interp!(run_n2, N2, N2Vec, N2Slice, N2SliceMut, N2Ref, N2RefMut, N2Ptr, N2PtrMut, N2Iter, N2IterMut, yes);
 interp!(run_zz, ZZ, ZZVec, ZZSlice, ZZSliceMut, ZZRef, ZZRefMut, ZZPtr, ZZPtrMut, ZZIter, ZZIterMut, yes);
 interp!(run_nmid, NMid, NMidVec, NMidSlice, NMidSliceMut, NMidRef, NMidRefMut, NMidPtr, NMidPtrMut, NMidIter, NMidIterMut, yes);
@@ -901,15 +906,17 @@ pub fn shape_desc(name: &str) -> Option<String> {
         "One" => d::<One>(), "Two" => d::<Two>(), "Flat4" => d::<Flat4>(), "Heap" => d::<Heap>(),
         "DrH" => d::<DrH>(), "DrN" => d::<DrN>(), "DrNN" => d::<DrNN>(), "DrP" => d::<DrP>(), "PlC" => d::<PlC>(), "NFirst" => d::<NFirst>(), "NFirstF" => d::<NFirstF>(),
         "Hyg" => d::<Hyg>(), "N2" => d::<N2>(), "ZZ" => d::<ZZ>(), "NMid" => d::<NMid>(), "NMidF" => d::<NMidF>(), "NLast" => d::<NLast>(), "NLastF" => d::<NLastF>(),
-        "Deep" => d::<Deep>(), "DeepF" => d::<DeepF>(), _ => return None })
+        "Deep" => d::<Deep>(), "DeepF" => d::<DeepF>(),
+        "HygD0" => d::<HygD0>(), "HygD1" => d::<HygD1>(), "HygD2" => d::<HygD2>(), "HygD3" => d::<HygD3>(), "HygD4" => d::<HygD4>(), _ => return None })
 }
-pub const SHAPES: &[&str] = &["One", "Two", "Flat4", "Heap", "DrH", "DrN", "DrNN", "DrP", "PlC", "NFirst", "NFirstF", "Hyg", "N2", "ZZ", "NMid", "NMidF", "NLast", "NLastF", "Deep", "DeepF"];
+pub const SHAPES: &[&str] = &["One", "Two", "Flat4", "Heap", "DrH", "DrN", "DrNN", "DrP", "PlC", "NFirst", "NFirstF", "Hyg", "N2", "ZZ", "NMid", "NMidF", "NLast", "NLastF", "Deep", "DeepF", "HygD0", "HygD1", "HygD2", "HygD3", "HygD4"];
 
 pub fn run_shape(name: &str, lines: &[&str], out: &mut String) -> bool {
     match name {
         "One" => run_one(lines, out), "Two" => run_two(lines, out), "Flat4" => run_flat4(lines, out), "Heap" => run_heap(lines, out),
         "DrH" => run_drh(lines, out), "DrN" => run_drn(lines, out), "DrNN" => run_drnn(lines, out), "DrP" => run_drp(lines, out), "PlC" => run_plc(lines, out), "NFirst" => run_nfirst(lines, out), "NFirstF" => run_nfirstf(lines, out),
         "Hyg" => run_hyg(lines, out), "N2" => run_n2(lines, out), "ZZ" => run_zz(lines, out), "NMid" => run_nmid(lines, out), "NMidF" => run_nmidf(lines, out), "NLast" => run_nlast(lines, out), "NLastF" => run_nlastf(lines, out),
-        "Deep" => run_deep(lines, out), "DeepF" => run_deepf(lines, out), _ => return false }
+        "Deep" => run_deep(lines, out), "DeepF" => run_deepf(lines, out),
+        "HygD0" => run_hygd0(lines, out), "HygD1" => run_hygd1(lines, out), "HygD2" => run_hygd2(lines, out), "HygD3" => run_hygd3(lines, out), "HygD4" => run_hygd4(lines, out), _ => return false }
     true
 }
